@@ -18,6 +18,12 @@ Identity forests in which 2-4 hit-bearing trees / subtrees are deep copies of ea
          model WITHOUT any identity (content only) and the model answers with positions (paths), which are mapped
          back to the hidden indexes: identical content must never collapse nodes.  Entry.__eq__/__hash__ on
          distinct identical nodes is recorded in the evidence, not assumed.
+Values   literal name / attribute queries compare by VALUE whatever the provenance of the objects: every forest is
+(names)  queried as constructed, after pickle.loads(pickle.dumps(..)) and after copy.deepcopy, with names / attributes
+         given to the constructor or assigned afterwards as run-time built strs, equal floats and str-subclass
+         instances (bytes are a different value), every query literal once as interned source literal and once built
+         at run time; all six combinations must return the same nodes by position, and the model's.  Each pipeline is
+         run several times interleaved with other roots=True queries on the same objects (per-call de-duplication).
 Values   operation HISTORIES with shared sub-expressions (exec_prog / gen_history, driver request `prog`): a
          combination b nested to depth >= 3 is built and compiled, then used — the same object — as left and right
          operand of & and |, in chains ((b & c) & d, continued from derived objects), under ~, inside
@@ -32,9 +38,12 @@ Oracle   an independent evaluator over the plain description of the tree: a node
          nodes; test(v) == to_pyfunc()(v) == reference truth value when no predicate raises on v; a
          strict evaluation that raises must make the compiled predicate False.
 """
+import copy
 import json
 import operator
 import os
+import pickle
+import sys
 
 from harness.common import VERIF, enc, run_driver
 
@@ -282,11 +291,41 @@ def real_bexp(b, nary=False, env=None):
     raise ValueError(b)
 
 
+class NameStr(str):
+    """a str subclass: equal to the plain str by value"""
+
+
+BYTES_TAG = "\ue000"        # a description string starting with this stands for the bytes value of the rest
+
+
+def real_val(v, style):
+    """
+    the Python object for the described VALUE v, in one of several provenances that are all == to each other:
+      source    the interned str / the int
+      runtime   a str built at run time (a distinct, non-interned object for length >= 2) / the equal float
+      subclass  a str-subclass instance / the int
+    bytes values (tagged descriptions) are a different value from every str and only equal to themselves.
+    """
+    if isinstance(v, str) and v.startswith(BYTES_TAG):
+        return v[1:].encode("utf-8")
+    if isinstance(v, str):
+        if style == "runtime":
+            return "".join([c for c in v])
+        if style == "subclass":
+            return NameStr(v)
+        return sys.intern(str(v))
+    if isinstance(v, int) and style == "runtime":
+        return float(v)
+    return v
+
+
 def real_nq(n, env=None):
     k = n[0]
     if k == "any":
         return None
     if k == "lit":
+        if env and env.get("lit"):
+            return real_val(n[1], env["lit"])
         return n[1]
     if k == "b":
         return real_bexp(n[1], False, env)
@@ -1439,6 +1478,168 @@ def gen_history(rng):
     return {"docs": docs, "stmts": stmts}
 
 
+# --------------------------------------------------------------------------- provenance: literals compare by VALUE
+#
+# The same forest in three provenances (constructed / pickled + unpickled / deep-copied), its names and attributes
+# in one of three styles (given to the constructor / assigned after construction as run-time built strs and equal
+# floats / assigned as str-subclass instances), every query literal in two provenances (interned source literal /
+# built at run time, floats for ints): all combinations must return the same nodes (by position) and those of
+# the model, for which names are plain values.  Every pipeline is also run several times, interleaved with other
+# roots=True queries, on the same objects: the de-duplication state is per call.
+
+P_NAMES = ["ab", "Ab", "abc", "srv", "node_1", "a b", "éé", "x", 5, None, BYTES_TAG + "ab"]
+P_ATTRS = ["ab", "v1", "/var", "abc", 1, 0, 80, None, BYTES_TAG + "ab", "x"]
+
+
+def build_entries_styled(docs, style):
+    ident, keep = {}, []
+
+    def mk(t):
+        kids = [mk(c) for c in t["children"]]
+        name_bytes = isinstance(t["name"], str) and t["name"].startswith(BYTES_TAG)
+        if style == "plain" and not name_bytes:
+            e = Entry(name=real_val(t["name"], "source"), attrs=tuple(real_val(a, "source") for a in t["attrs"]), children=kids)
+        else:       # values assigned after construction (the constructor decodes bytes names and refuses str subclasses)
+            e = Entry(name=None, attrs=(), children=kids)
+            st = "source" if style == "plain" else style
+            e._name = real_val(t["name"], st)
+            e.attrs = tuple(real_val(a, st) for a in t["attrs"])
+        ident[id(e)] = t["id"]
+        keep.append(e)
+        return e
+    return [mk(t) for t in docs], ident, keep
+
+
+def transfer_ident(old_tops, new_tops, ident):
+    out, keep = {}, []
+    stack = list(zip(old_tops, new_tops))
+    while stack:
+        a, b = stack.pop()
+        out[id(b)] = ident[id(a)]
+        keep.append(b)
+        stack.extend(zip(a.children, b.children))
+    return out, keep
+
+
+def gen_prov_case(rng):
+    names = rng.sample([n for n in P_NAMES if isinstance(n, str) and not n.startswith(BYTES_TAG)], 2) + \
+        ([rng.choice([5, None, BYTES_TAG + "ab"])] if rng.random() < 0.35 else [])
+    nid = [0]
+    budget = [rng.randint(4, 22)]
+
+    def node(depth, top=False):
+        t = {"id": nid[0], "name": None if (top and rng.random() < 0.7) else rng.choice(names),
+             "attrs": [] if top else [rng.choice(P_ATTRS) for _ in range(rng.choice([0, 1, 1, 2]))], "children": []}
+        nid[0] += 1
+        budget[0] -= 1
+        for _ in range(rng.choice([1, 2, 3]) if top else (0 if depth >= 4 else rng.choice([0, 1, 2, 2, 3]))):
+            if budget[0] <= 0:
+                break
+            t["children"].append(node(depth + 1))
+        return t
+    docs = [node(0, True) for _ in range(rng.choice([1, 1, 2]))]
+    all_nodes = Doc(docs)
+    used_attrs = [a for t in all_nodes.by_id.values() for a in t["attrs"]] or P_ATTRS
+
+    def attr_lit():
+        return ["lit", rng.choice(used_attrs) if rng.random() < 0.7 else rng.choice(P_ATTRS)]
+
+    def lit_query():
+        k = rng.random()
+        n = ["lit", rng.choice(names)] if rng.random() < 0.85 else ["lit", rng.choice(P_NAMES)]
+        if n[1] is None:
+            n = ["any"]
+        if k < 0.5:
+            return ["qn", n]
+        if k < 0.6:
+            return ["qn", ["any"]]
+        return ["qt", n if rng.random() < 0.6 else ["any"], [attr_lit() for _ in range(rng.choice([0, 1, 1, 2]))]]
+
+    def pipeline():
+        r = rng.random()
+        start = "doc %d" % rng.randrange(len(docs)) if r < 0.5 else "res" if r < 0.75 else "fn" if r < 0.85 else \
+            "node %d" % rng.choice(all_nodes.order)
+        steps = []
+        k = rng.random()
+        if start == "fn" or k < 0.6:
+            steps.append(["S", rng.random() < 0.6, rng.random() < 0.6, [lit_query() for _ in range(rng.choice([1, 1, 1, 2, 2, 3]))]])
+        elif k < 0.8:
+            q = lit_query()
+            if q[0] == "qn" and q[1][0] == "lit" and isinstance(q[1][1], int):
+                q = ["qt", q[1], []]
+            steps.append(["G", q])
+        else:
+            a = attr_lit() if rng.random() < 0.4 else None
+            steps.append(["W", ["child", ["lit", rng.choice(names)] if rng.random() < 0.8 else ["any"],
+                                None if a == ["lit", None] else a], rng.choice(["obj", "nv"])])
+            if steps[-1][1][1] == ["lit", None]:
+                steps[-1][1][1] = ["any"]
+        if not (steps[-1][0] == "S" and steps[-1][2]):
+            k = rng.random()
+            if k < 0.25:
+                steps.append(["S", rng.random() < 0.5, rng.random() < 0.6, [lit_query() for _ in range(rng.choice([1, 2]))]])
+            elif k < 0.4:
+                steps.append(rng.choice([["R"], ["P"], ["U", ["qn", ["lit", rng.choice(names)]]]]))
+                if steps[-1][0] == "U" and steps[-1][1][1][1] is None:
+                    steps[-1] = ["R"]
+        return {"start": start, "steps": steps, "via_find": rng.random() < 0.5}
+    pipes = [pipeline() for _ in range(rng.choice([2, 3]))]
+    if not any(p["steps"][-1][0] == "S" and p["steps"][-1][2] for p in pipes):       # at least one roots=True call
+        pipes.append({"start": "res", "via_find": True,
+                      "steps": [["S", True, True, [["qn", ["lit", rng.choice(names)] if rng.random() < 0.8 else ["any"]]]]]})
+        if pipes[-1]["steps"][0][3][0][1] == ["lit", None]:
+            pipes[-1]["steps"][0][3][0][1] = ["any"]
+    order = list(range(len(pipes))) + [0] + [rng.randrange(len(pipes)) for _ in range(2)] + [len(pipes) - 1, 0]
+    return {"docs": docs, "style": rng.choice(["plain", "plain", "runtime", "runtime", "subclass"]), "pipes": pipes, "order": order}
+
+
+def exec_prov(case, sink):
+    """answers per pipeline ("!…" when the provenances / repeated calls disagree), and the roots-free result of each"""
+    base_tops, base_ident, keep0 = build_entries_styled(case["docs"], case["style"])
+    forests = {"constructed": (base_tops, base_ident)}
+    t = pickle.loads(pickle.dumps(base_tops, protocol=pickle.HIGHEST_PROTOCOL))
+    forests["pickled"] = (t, transfer_ident(base_tops, t, base_ident)[0])
+    t = copy.deepcopy(base_tops)
+    forests["deep-copied"] = (t, transfer_ident(base_tops, t, base_ident)[0])
+    seen = [dict() for _ in case["pipes"]]      # pipeline -> {answer: [where it was seen]}
+    plains = [None] * len(case["pipes"])
+    for tprov in ("constructed", "pickled", "deep-copied"):
+        tops, ident = forests[tprov]
+        for call, pi in enumerate(case["order"]):
+            pipe = case["pipes"][pi]
+            for lprov in ("source", "runtime"):
+                c = {"start": pipe["start"], "docs": case["docs"], "steps": pipe["steps"], "via_find": pipe["via_find"]}
+                a, plain = run_impl(c, tops, ident, env={"B": [], "E": [], "lit": lprov})
+                seen[pi].setdefault(a, []).append("%s tree, %s literals, call %d" % (tprov, lprov, call))
+                if plains[pi] is None:
+                    plains[pi] = plain_ids(plain, ident)
+    answers = []
+    for pi, d in enumerate(seen):
+        if len(d) == 1:
+            answers.append(list(d)[0])
+        else:
+            desc = "; ".join("%s <- %s" % (a, w[0] if len(w) == 1 else "%s (+%d more)" % (w[0], len(w) - 1)) for a, w in d.items())
+            sink.failure("the same query on the same tree gives different nodes depending on provenance / call: pipeline %d %s: %s"
+                         % (pi, json.dumps(case["pipes"][pi]["steps"], ensure_ascii=True), desc))
+            answers.append("!" + "|".join(sorted(d)))
+    return answers, plains
+
+
+class _CaseSink(object):
+    def __init__(self, chk, kind, case):
+        self.chk, self.case = chk, {"kind": kind, "case": case}
+
+    def failure(self, desc, case=None, finding=None):
+        self.chk.failure(desc, self.case, finding=finding)
+
+    def count(self, *a, **k):
+        self.chk.count(*a, **k)
+
+
+def prov_pipes(case):
+    return [{"start": p["start"], "docs": case["docs"], "steps": p["steps"], "via_find": p["via_find"]} for p in case["pipes"]]
+
+
 # --------------------------------------------------------------------------- run
 
 def case_key(case):
@@ -1511,7 +1712,16 @@ def run(chk):
         data = json.load(open(os.path.join(CORPUS, fn), encoding="utf-8"))
         c = data["case"]
         chk.witnesses.append(fn)
-        if data["kind"] == "prog":
+        if data["kind"] == "prov":
+            sink = _CaseSink(chk, "prov", c)
+            answers, plains = exec_prov(c, sink)
+            pipes = prov_pipes(c)
+            chk.compare("corpus-provenance", [(x, c) for x in pipes], answers, model_sel(pipes), show=lambda x: {"kind": "prov", "case": x[1]})
+            for x, a, pl in zip(pipes, answers, plains):
+                if not a.startswith("!"):
+                    oracle_select(sink, x, a, pl)
+            chk.case(("corpus", fn), True)
+        elif data["kind"] == "prog":
             a = exec_prog(c, _ProgSink(chk, c))
             chk.compare("corpus-history", [c], [a], model_prog([c]), show=lambda x: {"kind": "prog", "case": x})
             chk.case(("corpus", fn), True)
@@ -1631,6 +1841,32 @@ def run(chk):
             chk.sample({"identical": {"layout": cases[0]["layout"], "start": cases[0]["start"], "steps": cases[0]["steps"],
                                       "nodes": len(Doc(cases[0]["docs"]).order)}, "impl": impls[0][0]})
 
+    # ---- stream 2c: provenance — literals compare by value; the roots de-duplication state is per call
+    n_prov = 300 if quick else 5000
+    for lo in range(0, n_prov, 1000):
+        flat_cases, flat_impl = [], []
+        for _ in range(min(1000, n_prov - lo)):
+            pc = gen_prov_case(rng)
+            sink = _CaseSink(chk, "prov", pc)
+            answers, plains = exec_prov(pc, sink)
+            for c, a, pl in zip(prov_pipes(pc), answers, plains):
+                flat_cases.append((c, pc))
+                flat_impl.append(a)
+                if not a.startswith("!"):
+                    oracle_select(sink, c, a, pl)
+                chk.count("provenance:result-%s" % ("disagree" if a.startswith("!") else "err" if a == "err" else
+                                                    "empty" if a == "-" else "exc" if a.startswith("exc") else "nodes"))
+            chk.case(hash(case_key(pc)), any(a not in ("-", "err") for a in answers))
+            chk.count("provenance:forests")
+            chk.count("provenance:style-%s" % pc["style"])
+            chk.count("provenance:calls", 6 * len(pc["order"]))
+        model = model_sel([c for c, _ in flat_cases])
+        chk.compare("provenance (3 tree x 2 literal provenances, repeated calls)", flat_cases, flat_impl, model,
+                    show=lambda x: {"kind": "prov", "case": x[1]})
+        if lo == 0 and flat_cases:
+            chk.sample({"provenance": {"style": flat_cases[0][1]["style"], "pipes": flat_cases[0][1]["pipes"],
+                                       "order": flat_cases[0][1]["order"]}, "impl": flat_impl[0]})
+
     # ---- stream 2b: histories with shared sub-expressions (combinations are values)
     n_hist = 250 if quick else 3000
     for lo in range(0, n_hist, 500):
@@ -1719,9 +1955,20 @@ def replay(data):
     if isinstance(c, dict) and "kind" in c and "case" in c:
         kind, c = c["kind"], c["case"]
     else:
-        kind = data.get("kind") if data.get("kind") in ("bool", "sel", "prog") else ("bool" if "b" in c else "sel")
+        kind = data.get("kind") if data.get("kind") in ("bool", "sel", "prog", "prov") else ("bool" if "b" in c else "sel")
     rec = _Rec()
-    if kind == "prog":
+    if kind == "prov":
+        print("replaying provenance case: style=%s, %d pipelines, call order %s" % (c["style"], len(c["pipes"]), c["order"]))
+        answers, plains = exec_prov(c, rec)
+        model = model_sel(prov_pipes(c))
+        for pc_, a, pl, m in zip(prov_pipes(c), answers, plains, model):
+            print("  ", pc_["start"], json.dumps(pc_["steps"], ensure_ascii=True)[:160])
+            print("     impl %s   model %s" % (a, m))
+            if a != m:
+                rec.fails.append(("answer differs from the model's", None))
+            if not a.startswith("!"):
+                oracle_select(rec, pc_, a, pl)
+    elif kind == "prog":
         print("replaying program with %d statements" % len(c["stmts"]))
         for st in c["stmts"]:
             print("  ", json.dumps(st, ensure_ascii=False)[:200])
